@@ -14,7 +14,7 @@ RULE = ('Base documents: generated conformant documents of every selectable map 
         'non-trivial = distinct (map, node path, fault kind) triples decided.')
 ASSUMPTIONS = ['a syntax fault may be reported at any element position the violated note names', 'unknown / out-of-place segments may be reported with segment code 1 or 2',
                'faults are only injected where they cannot change how the segment or its neighbours are matched (no qualifiers, HL/LX numbers, BHT02), except the structural kinds, which are constructed so that the successor still matches its own node first']
-REQUIRED_COUNTERS = ['bases:with-interleaved-sibling-loops', 'bases:with-X,Y,X-sibling-loops', 'missing_segment:in-later-instance-after-sibling-loop', 'bad_code:member-of-another-external-set-seen-earlier', 'bad_code:code-list-on-non-ID-element', 'missing_required:whole-composite', 'missing_required:whole-composite:at-the-tail', 'bad_qualified_datetime:format:DT', 'bad_qualified_datetime:format:TM', 'bad_qualified_datetime:format:RD8', 'syntax:L:short', 'syntax:L:gaps', 'syntax:P:short', 'syntax:P:gaps', 'syntax:C:gaps', 'syntax:R:short', 'bad_code:with-another-set-excluded', 'bad_code:with-another-set-excluded:related-name', 'bad_char:outside-charset:B:00501', 'bad_char:outside-charset:B:00401', 'bad_char:outside-charset:E:00401', 'faults'] + ['kind:' + k for k in faults.ALL_KINDS] + ['localised', 'others-accepted-checked']
+REQUIRED_COUNTERS = ['bases:with-interleaved-sibling-loops', 'bases:with-X,Y,X-sibling-loops', 'missing_segment:in-later-instance-after-sibling-loop', 'bad_code:member-of-another-external-set-seen-earlier', 'bad_code:code-list-on-non-ID-element', 'missing_required:whole-composite', 'missing_required:whole-composite:at-the-tail', 'bad_qualified_datetime:format:DT', 'bad_qualified_datetime:format:TM', 'bad_qualified_datetime:format:RD8', 'bad_qualified_datetime:well-formed-in-another-listed-format', 'syntax:L:short', 'syntax:L:gaps', 'syntax:P:short', 'syntax:P:gaps', 'syntax:C:gaps', 'syntax:R:short', 'bad_code:situational-first-element-with-code-list', 'bad_code:with-another-set-excluded', 'bad_code:with-another-set-excluded:related-name', 'bad_char:outside-charset:B:00501', 'bad_char:outside-charset:B:00401', 'bad_char:outside-charset:E:00401', 'faults'] + ['kind:' + k for k in faults.ALL_KINDS] + ['localised', 'others-accepted-checked']
 MIN_CASES = {'quick': 1200, 'thorough': 30000}
 WATCHDOG_S = {'quick': 1200, 'thorough': 7200}
 
@@ -179,6 +179,8 @@ def run(ctx):
                         ctx.count('not-applicable:' + kind)
                         break
                     case = {'map': e['file'], 'entry': e, 'gen_seed': seed, 'params': kw, 'fault': f.describe(), 'text': f.doc.text() if len(f.doc.recs) < 120 else None}
+                    if f.note == 'situational-first-element-with-code-list':
+                        ctx.count('bad_code:situational-first-element-with-code-list')
                     if f.note == 'code-list-on-non-ID-element':
                         ctx.count('bad_code:code-list-on-non-ID-element')
                     if f.note == 'member-of-another-external-set-seen-earlier':
@@ -188,7 +190,9 @@ def run(ctx):
                     if f.kind == 'syntax' and f.note and ' shape:' in f.note:
                         ctx.count('syntax:' + f.note.split(' shape:')[1])
                     if f.note and f.note.startswith('format:'):
-                        ctx.count('bad_qualified_datetime:' + f.note)
+                        ctx.count('bad_qualified_datetime:' + ':'.join(f.note.split(':')[:2]))
+                        if f.note.endswith(':well-formed-in-another-listed-format'):
+                            ctx.count('bad_qualified_datetime:well-formed-in-another-listed-format')
                     if f.note and f.note.startswith('whole-composite'):
                         ctx.count('missing_required:' + f.note)
                     if f.note == 'later-instance-after-sibling':
